@@ -97,6 +97,8 @@ def main():
         cs = family.generate(fam, ns[fam], seed, tier)
         if fam in ("id", "reduce"):
             cs = cs + family.exhaustive(fam)
+        if fam == "reduce":
+            cs = cs + family.exhaustive("reduce-brackets")
         cases_by_family[fam] = cs
         for c in cs:
             for b in backends_for(c):
@@ -165,7 +167,7 @@ def main():
         "vacuity_twins": twins,
         "model_selftest": {"checks": st["checks"], "failures": len(st["failures"])},
         "bounds": family.Bounds(tier).as_dict(),
-        "exhaustive_subfamilies": "id: all 6 permutations x all one-level groupings of 3 axes on both sides, lengths (2,2,3) and (2,1,2); reductions: every non-empty bracket subset x every output permutation for all 11 reductions",
+        "exhaustive_subfamilies": "id: all 6 permutations x all one-level groupings of 3 axes on both sides, lengths (2,2,3) and (2,1,2); reductions: every non-empty bracket subset x every output permutation for all 11 reductions (3 axes); sum over every bracket pattern of 4 axes with adjacent bracketed axes written jointly or one by one",
         "backends": harness.BACKENDS,
         "functions_encoded": "whole einx pipeline executed for real (parse, solve, adapters, tracer, optimizer, compiler, generated code); see DESIGN.md §1 E1",
         "harness_wall_s": round(time.time() - t0, 2),
